@@ -206,12 +206,31 @@ def build_plain_coupling_model(cfg, decls, explicit_plus_hc=False, conserve=None
 def site_op(site, name):
     """Matrix of a (possibly composite 'A B') operator name in the conserve=None basis order."""
     op = site.get_op(name).to_ndarray()
-    perm = np.argsort(site.perm)  # inverse permutation: undo sort_charge
+    perm = unperm(site)
     return op[np.ix_(perm, perm)]
 
 
+SPEC_STATES = [('up', 'down'), ('empty', 'full'), ('0', '1', '2'), ('0', '1')]
+
+
 def unperm(site):
+    """Indices of the site's basis states in the order the specification uses (by state label: up/down,
+    empty/full, 0/1/2); falls back to undoing sort_charge for sites without such labels (GroupedSite)."""
+    labels = site.state_labels
+    for names in SPEC_STATES:
+        if len(names) == site.dim and all(n in labels for n in names):
+            return np.array([labels[n] for n in names])
     return np.argsort(site.perm)
+
+
+def native_to_spec(H, sites):
+    """Matrix given in the kron basis of the sites' *native* (not charge-sorted) local order -> spec order."""
+    dims = [s_.dim for s_ in sites]
+    q = [np.asarray(s_.perm)[unperm(s_)] for s_ in sites]
+    T = np.asarray(H).reshape(dims + dims)
+    T = T[np.ix_(*(q + q))]
+    D = int(np.prod(dims))
+    return T.reshape(D, D)
 
 
 def window_sites(sites, cells):
